@@ -70,6 +70,7 @@ void World::begin(uint64_t sched_salt, RunResult *r, bool keep_log, bool echo) {
   faults.clear();
   link_count.clear();
   partitioned.clear();
+  rewrite = nullptr;
   read_cuts.clear();
   write_cuts.clear();
   deliver_chunks.clear();
@@ -347,6 +348,14 @@ void World::on_datagram(const simk::Datagram &d, int from) {
     if (trace_wire) tr.line(now_us(), "drop(partition) %d>%d #%d", from, to, idx);
     for (auto &t : taps) t(dv);
     return;
+  }
+  if (rewrite) {
+    simk::Datagram c = d;
+    if (rewrite(c, from, to, idx)) {
+      count("fault.rewrite");
+      send_copy(c, from, to, idx, 0, base_latency_us);
+      return;
+    }
   }
   Fault *f = nullptr;
   for (auto &x : faults)
